@@ -428,7 +428,7 @@ def run(ctx):
             ctx.bad("C17.1", f"counter {sw.obj}.{attr} carries history into results", where, "; ".join(problems))
         else:
             ctx.ok("C17.1", f"counter {sw.obj}.{attr} never flows into a result", where, "uses: increment, initialisation, comparison guarding a print()")
-    ctx.floor("admitted caches recognised", len(caches), 3)
+    ctx.floor("shared containers written from API-reachable code (caches, admitted or not)", len(caches) + len({b.name for b in bad}), 3)
 
     # ---- C17.3 / C17.4 ---------------------------------------------------------------------------------------
     for root in w.roots:
@@ -443,18 +443,26 @@ def run(ctx):
                     f"`{ot}` in {of} ({k}) stores into the object passed as `{pname}`" + (" (inside it)" if t[2] else ""))
         else:
             ctx.ok("C17.3", f"{root} does not modify its arguments", where, "no mutation of a parameter region in its transitive summary")
+        ann = core.src(fi.node.returns).strip("'\"") if fi.node.returns is not None else ""
+        from .effects import IMM_ANNOT, IMM_TUPLE_ANNOT
+        imm_result = ann in IMM_ANNOT or ann in IMM_TUPLE_ANNOT
+        inner = ann[ann.index("[") + 1:-1] if ann.startswith(("List[", "Sequence[", "Tuple[")) and ann.endswith("]") else None
+        imm_elems = inner is not None and all(x.strip() in IMM_ANNOT or x.strip() in IMM_TUPLE_ANNOT or x.strip() == "..." for x in inner.split(","))
         shared = set()
         stack = list(s.ret)
         seen_f = set()
         while stack:
             n = stack.pop()
             if n[0] == "G":
-                if n[2] <= 1:
+                # the declared result type tells which levels can hold mutable objects at all
+                if imm_result:
+                    continue
+                if n[2] == 0 or (n[2] == 1 and not imm_elems):
                     shared.add(n)
             elif n[0] == "F" and n[1] not in seen_f:
                 seen_f.add(n[1])
                 stack.extend(s.fcont.get(n[1], ()))
-        direct = [n for n in s.ret if n[0] == "G"]
+        direct = [n for n in s.ret if n[0] == "G" and not imm_result and (n[2] == 0 or not imm_elems)]
         if direct or shared:
             n = (direct or sorted(shared))[0]
             ctx.bad("C17.4", f"{root} returns (part of) the shared object {n[1]}", where,
